@@ -5,7 +5,7 @@ import pandapower as pp
 from pandapower.pf.runpp_3ph import runpp_3ph
 
 
-def _net():
+def _net0():
     net = pp.create_empty_network(sn_mva=10.)
     hv = pp.create_bus(net, 110.); b = pp.create_buses(net, 3, 20.)
     pp.create_ext_grid(net, hv, vm_pu=1.0, s_sc_max_mva=5000., rx_max=0.1, r0x0_max=0.1, x0x_max=1.0)
@@ -21,33 +21,68 @@ def _net():
     return net
 
 
+def _net(fused=False):
+    net = _net0()
+    if fused:
+        # a second busbar section coupled by a closed bus-bus switch: both pandapower buses are one electrical node
+        b2 = pp.create_bus(net, 20.)
+        pp.create_switch(net, 2, b2, et="b", closed=True)
+        pp.create_load(net, b2, 1.5, .4); pp.create_sgen(net, b2, .5, .1); pp.create_load(net, b2, .7, .2, type="delta")
+        pp.create_load(net, 2, .4, .1, type="delta")
+    return net
+
+
+def _scenario(fused, fails):
+    tag = "symmetric network" + (" with two busbar sections coupled by a closed bus-bus switch" if fused else "")
+    net = _net(fused)
+    pp.runpp(net, calculate_voltage_angles=True)
+    n3 = _net(fused)
+    runpp_3ph(n3)
+    _compare(net, n3, tag, fails)
+    if fused:
+        # unbalanced: the per-phase powers delivered by the lines into the fused node equal what its elements take
+        nu = _net(True)
+        pp.create_asymmetric_load(nu, 2, p_a_mw=.3, q_a_mvar=.1, p_b_mw=.1, q_b_mvar=.0, p_c_mw=.2, q_c_mvar=.05)
+        pp.create_asymmetric_load(nu, 4, p_a_mw=.1, q_a_mvar=.0, p_b_mw=.4, q_b_mvar=.1, p_c_mw=.2, q_c_mvar=.1)
+        runpp_3ph(nu)
+        for ph in "abc":
+            into = -nu.res_line_3ph[f"p_{ph}_to_mw"].values[nu.line.to_bus.values == 2].sum() \
+                   - nu.res_line_3ph[f"p_{ph}_from_mw"].values[nu.line.from_bus.values == 2].sum()
+            taken = (nu.load.p_mw[nu.load.bus.isin([2, 4])].sum() - nu.sgen.p_mw[nu.sgen.bus.isin([2, 4])].sum()) / 3 \
+                + nu.asymmetric_load[f"p_{ph}_mw"][nu.asymmetric_load.bus.isin([2, 4])].sum()
+            if abs(into - taken) > 1e-4:
+                fails.append(f"unbalanced network, coupled busbar sections: phase {ph} lines deliver {into:.5f} MW into the node, its "
+                             f"elements take {taken:.5f} MW")
+
+
 def main():
     fails = []
-    net = _net()
-    pp.runpp(net, calculate_voltage_angles=True)
-    n3 = _net()
-    runpp_3ph(n3)
-    r = n3.res_bus_3ph
-    vm = net.res_bus.vm_pu.values
-    for ph in "abc":
-        if not np.allclose(r[f"vm_{ph}_pu"].values, vm, atol=1e-5):
-            fails.append(f"symmetric network: vm_{ph}_pu differs from the symmetric power flow by {np.max(np.abs(r[f'vm_{ph}_pu'].values - vm)):.2e}")
-    d = lambda x: (x + 180.) % 360. - 180.
-    if not np.allclose(d(r.va_b_degree.values - r.va_a_degree.values), -120., atol=1e-4) or \
-            not np.allclose(d(r.va_c_degree.values - r.va_a_degree.values), 120., atol=1e-4):
-        fails.append("symmetric network: phase angles are not shifted by -120 / +120 degrees")
-    rl, r3 = net.res_line, n3.res_line_3ph
-    for ph in "abc":
-        if not np.allclose(r3[f"p_{ph}_from_mw"].values, rl.p_from_mw.values / 3, atol=1e-5):
-            fails.append(f"symmetric network: p_{ph}_from_mw of the lines is not one third of the symmetric result")
-    tot = sum(r3[f"p_{ph}_from_mw"].values for ph in "abc")
-    if not np.allclose(tot, rl.p_from_mw.values, atol=1e-5):
-        fails.append("per-phase line powers do not add up to the symmetric total")
+    for fused in (False, True):
+        _scenario(fused, fails)
     for f in fails:
         print("REPRODUCED:", f)
     if not fails:
         print("not reproduced: the three-phase power flow of a symmetric network equals the symmetric power flow")
     sys.exit(1 if fails else 0)
+
+
+def _compare(net, n3, tag, fails):
+    r = n3.res_bus_3ph
+    vm = net.res_bus.vm_pu.values
+    for ph in "abc":
+        if not np.allclose(r[f"vm_{ph}_pu"].values, vm, atol=1e-5):
+            fails.append(f"{tag}: vm_{ph}_pu differs from the symmetric power flow by {np.max(np.abs(r[f'vm_{ph}_pu'].values - vm)):.2e}")
+    d = lambda x: (x + 180.) % 360. - 180.
+    if not np.allclose(d(r.va_b_degree.values - r.va_a_degree.values), -120., atol=1e-4) or \
+            not np.allclose(d(r.va_c_degree.values - r.va_a_degree.values), 120., atol=1e-4):
+        fails.append(f"{tag}: phase angles are not shifted by -120 / +120 degrees")
+    rl, r3 = net.res_line, n3.res_line_3ph
+    for ph in "abc":
+        if not np.allclose(r3[f"p_{ph}_from_mw"].values, rl.p_from_mw.values / 3, atol=1e-5):
+            fails.append(f"{tag}: p_{ph}_from_mw of the lines is not one third of the symmetric result")
+    tot = sum(r3[f"p_{ph}_from_mw"].values for ph in "abc")
+    if not np.allclose(tot, rl.p_from_mw.values, atol=1e-5):
+        fails.append("per-phase line powers do not add up to the symmetric total")
 
 
 if __name__ == "__main__":
